@@ -134,6 +134,15 @@ class MemStreamTransport(AsyncStreamTransport):
         self.name = name
         self.in_recv = 0
         self.both_in_flight = 0  # times a send was suspended in here while a receive was pending too
+        self.extras: dict = {}
+        self.send_started = 0  # send_all calls that began writing
+        self.overlap_attempts = 0  # send_all entered while another send_all was suspended in here
+
+    def use_socket_extras(self, sock) -> None:
+        """expose the typed attributes of a real (dummy) socket: clients and servers want family / sockname / peername"""
+        from easynetwork.lowlevel import socket as socket_tools
+
+        self.extras = socket_tools._get_socket_extra(sock, wrap_in_proxy=False)
 
     # ------------------------------------------------------------------ read side
     async def recv_into(self, buffer) -> int:
@@ -192,6 +201,8 @@ class MemStreamTransport(AsyncStreamTransport):
         fault = self.send_faults.get(idx)
         if fault is not None:
             raise fault
+        if self.in_send:
+            self.overlap_attempts += 1
         self.in_send += 1
         self.max_in_send = max(self.max_in_send, self.in_send)
         if self.in_recv:
@@ -260,7 +271,7 @@ class MemStreamTransport(AsyncStreamTransport):
 
     @property
     def extra_attributes(self) -> Mapping[Any, Callable[[], Any]]:
-        return {}
+        return self.extras
 
     def wire_bytes(self) -> bytes:
         return b"".join(self.wire)
